@@ -104,8 +104,61 @@ def _names(fs):
     return [f.__name__ for f in fs]
 
 
-def _pairs(items):
-    return lean_list(["(%s, %s)" % (lit(k), lit(v)) for k, v in items])
+class N(str):
+    """a string that is emitted as `Name` (List Nat of code points)"""
+
+
+def nm(x):
+    """Lean literal of a value in which every str is a Name (code points)"""
+    if isinstance(x, Ref):
+        return x.ident
+    if isinstance(x, bool):
+        return "true" if x else "false"
+    if isinstance(x, str):
+        return "[" + ", ".join(str(ord(c)) for c in x) + "]"
+    if isinstance(x, int):
+        return lit(x)
+    if isinstance(x, list):
+        return "[" + ", ".join(nm(v) for v in x) + "]"
+    if isinstance(x, tuple):
+        return "(" + ", ".join(nm(v) for v in x) + ")"
+    raise TypeError(type(x))
+
+
+class Ref:
+    def __init__(self, ident):
+        self.ident = ident
+
+
+class Texts:
+    """every distinct long text (docstring, report bullet) becomes one named definition `t<k>`"""
+
+    def __init__(self):
+        self.ids = {}
+
+    def ref(self, text):
+        if text not in self.ids:
+            self.ids[text] = "t%d" % len(self.ids)
+        return Ref(self.ids[text])
+
+    def defs(self):
+        out = []
+        for text, ident in self.ids.items():
+            shown = text.replace("\n", " / ").replace("-/", "- /")
+            out.append(f"/-- {shown} -/\ndef {ident} : Name := {nm(text)}")
+        return "\n".join(out)
+
+
+def _pairs(items, comment=True):
+    rows = []
+    for k, v in items:
+        c = ""
+        if comment and isinstance(k, str):
+            shown = k + (": " + ", ".join(v) if isinstance(v, list) and all(isinstance(x, str) for x in v) else
+                         (" -> " + v if isinstance(v, str) else ""))
+            c = "/- %s -/ " % shown.replace("-/", "- /")
+        rows.append("%s(%s, %s)" % (c, nm(k), nm(v)))
+    return lean_list(rows)
 
 
 def emit(repo):
@@ -146,21 +199,23 @@ def emit(repo):
             raise ValueError(f"{name} no longer has {n} components: {v}")
         return v
 
+    texts = Texts()
+
     def docs(cls):
         out = []
         for k, v in vars(cls).items():
             if k.startswith("constraint_"):
                 f = getattr(cls, k)
-                out.append((k, f.__doc__ or ""))
+                out.append((k, texts.ref(f.__doc__ or "")))
         return out
 
     op_rows = []
     for op in Op:
         idx = op.info.indices
         ext = optype_to_builtintype(op)
-        op_rows.append("{ name := %s, ifms := %s, weights := %s, biases := %s, block := %s, ext := %s }" % (
-            lit(op.name), lit([int(i) for i in idx.ifms]), lit([int(i) for i in idx.weights]), lit([int(i) for i in idx.biases]),
-            lit(op.info.block_type.name), lit("" if ext is BUILTIN_OPERATOR_UNKNOWN else str(ext))))
+        op_rows.append("/- %s -/ { name := %s, ifms := %s, weights := %s, biases := %s, block := %s, ext := %s }" % (
+            op.name, nm(op.name), lit([int(i) for i in idx.ifms]), lit([int(i) for i in idx.weights]), lit([int(i) for i in idx.biases]),
+            nm(op.info.block_type.name), nm("" if ext is BUILTIN_OPERATOR_UNKNOWN else str(ext))))
     builtin_rows = sorted((builtin_operator_name_map[b], v[0].name) for b, v in builtin_operator_map.items())
 
     fresh = fresh_report(repo)
@@ -169,11 +224,26 @@ def emit(repo):
 
     def report_defs(prefix, text):
         table, gen, spec = parse_report(text)
+        gen = [(texts.ref(d), ex) for d, ex in gen]
+        spec = [(n, [texts.ref(b) for b in bs]) for n, bs in spec]
         return (
-            f"def {prefix}Table : List (String × Bool) := {_pairs(table)}\n\n"
-            f"def {prefix}Generic : List (String × List String) := {_pairs(gen)}\n\n"
-            f"def {prefix}Specific : List (String × List String) := {_pairs(spec)}\n"
+            f"def {prefix}Table : List (Name × Bool) := {_pairs(table)}\n\n"
+            f"def {prefix}Generic : List (Name × List Name) := {_pairs(gen)}\n\n"
+            f"def {prefix}Specific : List (Name × List Name) := {_pairs(spec)}\n"
         )
+
+    sup_docs, sem_docs = docs(TFLiteSupportedOperators), docs(TFLiteSemantic)
+
+    def with_docs(fs):
+        return [(f.__name__, texts.ref(f.__doc__ or "")) for f in fs]
+
+    def spec_with_docs(d):
+        return sorted((k.name, with_docs(v)) for k, v in d.items() if v)
+
+    def pairs_d(items):
+        return lean_list(["/- %s: %s -/ (%s, %s)" % (k, ", ".join(n for n, _ in v), nm(k), nm(v)) for k, v in items])
+
+    fresh_defs, committed_defs = report_defs("fresh", fresh), report_defs("committed", committed)
 
     tdr, sr = rng("tens_dim_range", 2), rng("stride_range", 2)
     dhr, dpr = rng("dilated_height_range", 2), rng("dilated_product_range", 2)
@@ -181,21 +251,36 @@ def emit(repo):
     text = HEADER + f"""
 namespace VelaVerif.Gen.Constraints
 
+/-- identifiers and texts as lists of code points (fast to compare in the kernel, see Model/Constraints.lean) -/
+abbrev Name := List Nat
+
+/-- direct structural comparison on `Nat.beq` (kernel-accelerated); the default `BEq (List Nat)` goes
+    through `DecidableEq` and costs several times more per element in `decide` -/
+def nameEq : List Nat → List Nat → Bool
+  | [], [] => true
+  | a :: as, b :: bs => Nat.beq a b && nameEq as bs
+  | _, _ => false
+
+instance (priority := high) instBEqName : BEq (List Nat) := ⟨nameEq⟩
+
 structure OpRow where
-  name : String
+  name : Name
   ifms : List Nat
   weights : List Nat
   biases : List Nat
-  block : String
-  /-- `optype_to_builtintype`; "" when it is BUILTIN_OPERATOR_UNKNOWN -/
-  ext : String
+  block : Name
+  /-- `optype_to_builtintype`; empty when it is BUILTIN_OPERATOR_UNKNOWN -/
+  ext : Name
 deriving Repr, DecidableEq, Inhabited
 
 /-- every member of `operation.Op` with its `info.indices`, block type and external name -/
 def opRows : List OpRow := {lean_list(op_rows)}
 
 /-- `builtin_operator_map`: TFLite builtin name -> internal operator type, sorted by name (the order of the report) -/
-def builtinOps : List (String × String) := {_pairs(builtin_rows)}
+def builtinOps : List (Name × Name) := {_pairs(builtin_rows)}
+
+-- every distinct docstring / report bullet
+{texts.defs()}
 
 -- numeric ranges of TFLiteSupportedOperators (named: the model reads these)
 def tensDimRange : Int × Int := ({tdr[0]}, {tdr[1]})
@@ -212,30 +297,36 @@ def meanKernelProductUint8 : Int := {rng("mean_kernel_product_uint8", 1)[0]}
 def meanKernelProductInt16 : Int := {rng("mean_kernel_product_int16", 1)[0]}
 
 /-- every int / int-tuple class attribute of TFLiteSupportedOperators -/
-def supNumbers : List (String × List Int) := {_pairs(s_nums)}
+def supNumbers : List (Name × List Int) := {_pairs(s_nums)}
 /-- every set-of-DataType class attribute (members as `str(DataType)`, sorted) -/
-def supDtypeSets : List (String × List String) := {_pairs(s_dts)}
+def supDtypeSets : List (Name × List Name) := {_pairs(s_dts)}
 /-- every set-of-Op class attribute of TFLiteSupportedOperators (member names sorted) -/
-def supOpSets : List (String × List String) := {_pairs(s_ops)}
+def supOpSets : List (Name × List Name) := {_pairs(s_ops)}
 /-- every set-of-Op class attribute of TFLiteSemantic -/
-def semOpSets : List (String × List String) := {_pairs(m_ops)}
+def semOpSets : List (Name × List Name) := {_pairs(m_ops)}
 
 -- TFLiteSupportedOperators(): ordered lists of constraint function names
-def supGeneric : List String := {lit(_names(sup.generic_constraints))}
-def supExceptions : List (String × List String) := {_pairs(sorted((k.name, _names(v)) for k, v in sup.generic_constraints_exceptions.items() if v))}
-def supSpecific : List (String × List String) := {_pairs(sorted((k.name, _names(v)) for k, v in sup.specific_constraints.items() if v))}
-def supDocs : List (String × String) := {_pairs(docs(TFLiteSupportedOperators))}
+/-- (function name, docstring): {", ".join(_names(sup.generic_constraints))} -/
+def supGenericD : List (Name × Name) := {nm(with_docs(sup.generic_constraints))}
+def supGeneric : List Name := supGenericD.map (·.1)
+def supExceptions : List (Name × List Name) := {_pairs(sorted((k.name, _names(v)) for k, v in sup.generic_constraints_exceptions.items() if v))}
+def supSpecificD : List (Name × List (Name × Name)) := {pairs_d(spec_with_docs(sup.specific_constraints))}
+def supSpecific : List (Name × List Name) := supSpecificD.map fun (k, v) => (k, v.map (·.1))
+def supDocs : List (Name × Name) := {_pairs(sup_docs)}
 
 -- TFLiteSemantic()
-def semGeneric : List String := {lit(_names(sem.generic_constraints))}
-def semExclude : List (String × List String) := {_pairs(sorted((k.name, _names(v)) for k, v in TFLiteSemantic.get_generic_constraint_exclude_list().items() if v))}
-def semSpecific : List (String × List String) := {_pairs(sorted((k.name, _names(v)) for k, v in sem.specific_constraints.items() if v))}
-def semDocs : List (String × String) := {_pairs(docs(TFLiteSemantic))}
+/-- (function name, docstring): {", ".join(_names(sem.generic_constraints))} -/
+def semGenericD : List (Name × Name) := {nm(with_docs(sem.generic_constraints))}
+def semGeneric : List Name := semGenericD.map (·.1)
+def semExclude : List (Name × List Name) := {_pairs(sorted((k.name, _names(v)) for k, v in TFLiteSemantic.get_generic_constraint_exclude_list().items() if v))}
+def semSpecificD : List (Name × List (Name × Name)) := {pairs_d(spec_with_docs(sem.specific_constraints))}
+def semSpecific : List (Name × List Name) := semSpecificD.map fun (k, v) => (k, v.map (·.1))
+def semDocs : List (Name × Name) := {_pairs(sem_docs)}
 
 -- the report written by vela.generate_supported_ops() on this run, parsed
-{report_defs("fresh", fresh)}
+{fresh_defs}
 -- /repo/SUPPORTED_OPS.md as committed, parsed by the same parser
-{report_defs("committed", committed)}
+{committed_defs}
 end VelaVerif.Gen.Constraints
 """
     return {"Constraints.lean": text}
